@@ -225,23 +225,26 @@ Print Assumptions C12_valid_le_received.
 (* ---- the AsyncPool of device/src/u3v/async_read.rs (model/AsyncPool.v, proofs/P_C12p.v) -------------
    For ALL device scripts - which libusb_submit_transfer calls are refused, how and when accepted
    transfers complete, how many further event-handling rounds a cancellation takes, which
-   libusb_handle_events_locked calls fail and how (any finite list of return codes) - and ALL
-   sequences of submit / poll / pending / cancel_all / drop / new operations (and of further
-   event-handling results scripted in between).  `pool_run ... = Some (s, out, false)`: the
+   libusb_handle_events_locked calls fail and how (any finite list of return codes) -, ALL lock plans -
+   what the other threads of the process do with libusb's events lock in each round of poll_completed
+   (nothing: this thread handles the events; another thread handles them and this thread waits for it,
+   for any time; the lock is taken but its holder has left when this thread asks) - and ALL sequences
+   of submit / poll / pending / cancel_all / drop / new operations (and of further event-handling
+   results and lock-plan entries scripted in between).  `pool_run ... = Some (s, out, false)`: the
    operations ran without hitting an unreachable!() (C12_pool_documented_codes_no_panic: none is hit
    when statuses and error codes are ones libusb documents). *)
 
 (* every transfer in `pending` was accepted by libusb *)
-Theorem C12_pool_pending_accepted : forall pl evs ops s out,
-  pool_run false (pinit pl evs) ops = Some (s, out, false) ->
+Theorem C12_pool_pending_accepted : forall pl evs lks ops s out,
+  pool_run false (pinit pl evs lks) ops = Some (s, out, false) ->
   forall q, p_pool s = Some q -> Forall accepted_by_libusb q.
 Proof. exact pool_pending_accepted. Qed.
 Print Assumptions C12_pool_pending_accepted.
 
 (* poll returns completions in submission order: what has been returned so far, followed by what
    is pending, is exactly the accepted transfers 0, 1, ..., k-1 in order *)
-Theorem C12_pool_poll_fifo : forall pl evs ops s out,
-  pool_run false (pinit pl evs) ops = Some (s, out, false) ->
+Theorem C12_pool_poll_fifo : forall pl evs lks ops s out,
+  pool_run false (pinit pl evs lks) ops = Some (s, out, false) ->
   exists k, p_accepted s = Z.of_nat k /\ p_reaped s ++ map sl_no (pending_of s) = nums k.
 Proof. exact pool_poll_fifo. Qed.
 Print Assumptions C12_pool_poll_fifo.
@@ -256,23 +259,25 @@ Theorem C12_pool_refused_submit_unchanged : forall s q len code rest,
 Proof. exact pool_refused_submit_unchanged. Qed.
 Print Assumptions C12_pool_refused_submit_unchanged.
 
-(* a poll that does not return a completion - it timed out, event handling failed (INTERRUPTED, ...),
-   even the unreachable!() on an unknown code - pops nothing: `pending` keeps its transfers, their
-   order and its length, nothing is returned, nothing is freed *)
-Theorem C12_pool_failed_poll_keeps_pending : forall pl evs ops s out q ms s' r,
-  pool_run false (pinit pl evs) ops = Some (s, out, false) -> p_pool s = Some q ->
-  poll ms s q = (s', r) -> (forall o, r <> PReap o) ->
+(* a poll that does not return a completion - it timed out (also: a wait for another event handler
+   timed out), event handling failed (INTERRUPTED, ...), even the unreachable!() on an unknown code -
+   pops nothing: `pending` keeps its transfers, their order and its length, nothing is returned,
+   nothing is freed *)
+Theorem C12_pool_failed_poll_keeps_pending : forall pl evs lks ops s out q ms s' r,
+  pool_run false (pinit pl evs lks) ops = Some (s, out, false) -> p_pool s = Some q ->
+  poll true ms s q = (s', r) -> (forall o, r <> PReap o) ->
   exists q', p_pool s' = Some q' /\ map sl_no q' = map sl_no q /\ length q' = length q /\
              Forall accepted_by_libusb q' /\ p_reaped s' = p_reaped s /\ p_freed s' = p_freed s.
 Proof. exact pool_failed_poll_keeps_pending. Qed.
 Print Assumptions C12_pool_failed_poll_keeps_pending.
 
 (* dropping the pool, in any reachable state: the clean-up loop `while !is_empty() { poll(1 s).ok(); }`
-   ends (DHang = the fuel of the model's loop is used up), however many of its polls fail or time out;
-   and once it has returned every transfer that was pending has been reaped, in submission order -
-   no accepted transfer is left in flight - and none was freed while libusb still had it *)
-Theorem C12_pool_drop_terminates : forall pl evs ops s out q,
-  pool_run false (pinit pl evs) ops = Some (s, out, false) -> p_pool s = Some q ->
+   ends (DHang = the fuel of the model's loop is used up), however many of its polls fail or time out
+   and whatever the other threads do with the events lock meanwhile; and once it has returned every
+   transfer that was pending has been reaped, in submission order - no accepted transfer is left in
+   flight - and none was freed while libusb still had it *)
+Theorem C12_pool_drop_terminates : forall pl evs lks ops s out q,
+  pool_run false (pinit pl evs lks) ops = Some (s, out, false) -> p_pool s = Some q ->
   pool_drop s q <> DHang /\
   (forall s', pool_drop s q = DRet s' ->
      p_pool s' = None /\ p_reaped s' = p_reaped s ++ map sl_no q /\ p_accepted s' = p_accepted s /\ p_freed s' = 0).
@@ -281,45 +286,49 @@ Print Assumptions C12_pool_drop_terminates.
 
 (* the bound: the loop of Drop runs at most (transfers pending) + (cancellation latencies of the
    pending transfers, in event-handling rounds) + (failing event-handling calls still in the script)
+   + (rounds still in the lock plan in which this thread waits for another event handler: such a wait
+   can time out with nothing handled; rounds in which the holder of the lock has left add nothing)
    times - with any fuel above that the model's loop gives the result of pool_drop, which is not DHang *)
-Theorem C12_pool_drop_rounds_bound : forall pl evs ops s out q fuel,
-  pool_run false (pinit pl evs) ops = Some (s, out, false) -> p_pool s = Some q ->
+Theorem C12_pool_drop_rounds_bound : forall pl evs lks ops s out q fuel,
+  pool_run false (pinit pl evs lks) ops = Some (s, out, false) -> p_pool s = Some q ->
   let q' := fst (cancel_all q) in
   let s0 := add_notfound (set_pool s (Some q')) (snd (cancel_all q)) in
-  (length q + lat_sum q + failures (p_evs s) < fuel)%nat -> drain fuel s0 q' = pool_drop s q.
+  (length q + lat_sum q + failures (p_evs s) + actives (lk_plan (p_lk s)) < fuel)%nat -> drain fuel s0 q' = pool_drop s q.
 Proof. exact pool_drop_rounds_bound. Qed.
 Print Assumptions C12_pool_drop_rounds_bound.
 
-(* inside one poll the wait loop of poll_completed makes at most (transfers in flight) + 1
-   event-handling calls: the fuel the model gives it is never used up *)
-Theorem C12_pool_poll_wait_fuel : forall fuel fuel' s q, (nfl q < fuel)%nat -> (nfl q < fuel')%nat ->
-  poll_wait fuel s q = poll_wait fuel' s q.
+(* inside one poll the wait loop of poll_completed goes round at most (transfers in flight) + (rounds
+   still in the lock plan in which another thread holds the events lock) + 1 times: the fuel the model
+   gives it is never used up *)
+Theorem C12_pool_poll_wait_fuel : forall fuel fuel' s q rem,
+  (nfl q + contended (lk_plan (p_lk s)) < fuel)%nat -> (nfl q + contended (lk_plan (p_lk s)) < fuel')%nat ->
+  poll_wait true fuel s q rem = poll_wait true fuel' s q rem.
 Proof. exact poll_wait_fuel. Qed.
 Print Assumptions C12_pool_poll_wait_fuel.
 
 (* no operation sequence wedges (None = an operation that never returns) *)
-Theorem C12_pool_ops_terminate : forall pl evs ops, pool_run false (pinit pl evs) ops <> None.
+Theorem C12_pool_ops_terminate : forall pl evs lks ops, pool_run false (pinit pl evs lks) ops <> None.
 Proof. exact pool_ops_terminate. Qed.
 Print Assumptions C12_pool_ops_terminate.
 
 (* at no point of any operation sequence has a transfer been freed while libusb had it in flight *)
-Theorem C12_pool_never_frees_in_flight : forall pl evs ops s out,
-  pool_run false (pinit pl evs) ops = Some (s, out, false) -> p_freed s = 0.
+Theorem C12_pool_never_frees_in_flight : forall pl evs lks ops s out,
+  pool_run false (pinit pl evs lks) ops = Some (s, out, false) -> p_freed s = 0.
 Proof. exact pool_never_frees_in_flight. Qed.
 Print Assumptions C12_pool_never_frees_in_flight.
 
 (* with transfer statuses and error codes libusb documents no unreachable!() is hit, by no operation
    and not by the final drop, which returns with nothing freed in flight *)
-Theorem C12_pool_documented_codes_no_panic : forall pl evs ops s out b,
+Theorem C12_pool_documented_codes_no_panic : forall pl evs lks ops s out b,
   Forall plan_ok pl -> Forall ev_ok evs -> Forall op_ok ops ->
-  pool_run false (pinit pl evs) ops = Some (s, out, b) ->
+  pool_run false (pinit pl evs lks) ops = Some (s, out, b) ->
   b = false /\ forall q, p_pool s = Some q -> exists s', pool_drop s q = DRet s' /\ p_freed s' = 0.
 Proof. exact pool_documented_codes_no_panic. Qed.
 Print Assumptions C12_pool_documented_codes_no_panic.
 
 (* what these exclude: with the transfer pushed onto `pending` before libusb accepted it, one
    refused submission and the drop of the pool never returns *)
-Theorem C12_pool_push_first_wedges : pool_run true (pinit [PRefuse (-11)] []) [(1, 16); (5, 0)] = None.
+Theorem C12_pool_push_first_wedges : pool_run true (pinit [PRefuse (-11)] [] []) [(1, 16); (5, 0)] = None.
 Proof. exact pool_push_first_wedges. Qed.
 Print Assumptions C12_pool_push_first_wedges.
 
@@ -327,7 +336,7 @@ Print Assumptions C12_pool_push_first_wedges.
    the pool is empty frees a transfer in flight after ONE interrupted event handling, where the
    code's loop reaps it and frees nothing in flight *)
 Theorem C12_pool_rounds_variant_interrupted :
-  exists s q s1 s2, pool_run false (pinit [PAccept 0 8 1000000 0] [-10]) [(1, 16)] = Some (s, [0], false) /\
+  exists s q s1 s2, pool_run false (pinit [PAccept 0 8 1000000 0] [-10] []) [(1, 16)] = Some (s, [0], false) /\
     p_pool s = Some q /\ pool_drop_rounds s q = DRet s1 /\ p_freed s1 = 1 /\
     pool_drop s q = DRet s2 /\ p_freed s2 = 0 /\ p_reaped s2 = [0].
 Proof. exact pool_rounds_variant_interrupted. Qed.
@@ -336,8 +345,61 @@ Print Assumptions C12_pool_rounds_variant_interrupted.
 (* the same with cancellations that take two further event-handling rounds (each poll times out
    once more than the variant waits for) *)
 Theorem C12_pool_rounds_variant_slow_cancel :
-  exists s q s1 s2, pool_run false (pinit [PAccept 0 8 1000000 2; PAccept 0 8 1000000 2] []) [(1, 16); (1, 16)] = Some (s, [0; 0], false) /\
+  exists s q s1 s2, pool_run false (pinit [PAccept 0 8 1000000 2; PAccept 0 8 1000000 2] [] []) [(1, 16); (1, 16)] = Some (s, [0; 0], false) /\
     p_pool s = Some q /\ pool_drop_rounds s q = DRet s1 /\ p_freed s1 = 2 /\
     pool_drop s q = DRet s2 /\ p_freed s2 = 0 /\ p_reaped s2 = [0; 1].
 Proof. exact pool_rounds_variant_slow_cancel. Qed.
 Print Assumptions C12_pool_rounds_variant_slow_cancel.
+
+(* ---- poll_completed and the other threads of the process (libusb's events lock) ----------------------
+
+   the call log of the lock protocol (newest call first), after any operation sequence - also one
+   that ended in an unreachable!() -: libusb_wait_for_event was never called while no event handler
+   was active (the count of such waits is 0, no such call is in the log), and every wait in the log
+   directly follows a libusb_event_handler_active call that answered 1: the re-check under the waiters
+   lock that libusb's protocol for several threads prescribes *)
+Theorem C12_pool_waits_only_for_active_handler : forall pl evs lks ops s out b,
+  pool_run false (pinit pl evs lks) ops = Some (s, out, b) ->
+  lk_idle (p_lk s) = 0 /\ ~ In (CWait false) (lk_log (p_lk s)) /\
+  (forall l1 a l2, lk_log (p_lk s) = l1 ++ CWait a :: l2 -> a = true /\ exists l3, l2 = CActive true :: l3).
+Proof. exact pool_waits_only_for_active_handler. Qed.
+Print Assumptions C12_pool_waits_only_for_active_handler.
+
+(* a transfer that arrived in time is returned, not a time-out: in ANY state, if the front transfer of
+   `pending` is due (it completes at the next event handling: the device has delivered it, or its
+   cancellation has run its course, or its callback has already run) and the rounds of the poll allow
+   one event handling before the time-out has gone by - `handles`: rounds in which the holder of the
+   events lock has left are skipped, they take no time; the first other round is this thread's own and
+   its event handling succeeds, or another thread handles events within the time left -, then poll pops
+   exactly that transfer and returns its completion (for a transfer that was not cancelled: its planned
+   status and length) *)
+Theorem C12_pool_due_transfer_returned : forall ms s sl r,
+  due_at (p_epoch s) sl -> handles (lk_plan (p_lk s)) (p_evs s) (ms * 1000) = true ->
+  exists s' out r', poll true ms s (sl :: r) = (s', PReap out) /\ p_pool s' = Some r' /\ map sl_no r' = map sl_no r /\
+    p_reaped s' = p_reaped s ++ [sl_no sl] /\
+    (forall st ln due clat, sl_st sl = LFlight st ln due clat false -> out = done_out st (if st =? 0 then ln else 0)).
+Proof. exact pool_due_transfer_returned. Qed.
+Print Assumptions C12_pool_due_transfer_returned.
+
+(* in particular any number of rounds in which the lock was taken and its holder gone never turns a due
+   transfer into a time-out: they do not count *)
+Theorem C12_pool_held_gone_costs_nothing : forall k lks evs rem,
+  handles (repeat LkGone k ++ lks) evs rem = handles lks evs rem.
+Proof. exact handles_gone. Qed.
+Print Assumptions C12_pool_held_gone_costs_nothing.
+
+(* what these exclude: the wait without the re-check (`poll false`: libusb_wait_for_event is called in
+   the contended branch without asking libusb_event_handler_active).  One transfer, delivered at once;
+   in the one round of the poll the events lock is taken at the moment of libusb_try_lock_events and its
+   holder has left before this thread looks.  The code goes round again and returns the 8 bytes, no wait,
+   no time gone by; the variant waits for an event handler that does not exist - the whole 10 ms -
+   and returns Timeout (class 6) with the transfer still pending *)
+Theorem C12_pool_norecheck_variant_times_out :
+  exists s q s1 s2 q2, pool_run false (pinit [PAccept 0 8 0 0] [] [LkGone]) [(1, 16)] = Some (s, [0], false) /\
+    p_pool s = Some q /\
+    poll true 10 (next_epoch s) q = (s1, PReap [0; 8; 1]) /\ p_pool s1 = Some [] /\
+      lk_waits (p_lk s1) = 0 /\ lk_clock (p_lk s1) = 0 /\
+    poll false 10 (next_epoch s) q = (s2, PFail [1; 6]) /\ p_pool s2 = Some q2 /\ length q2 = 1%nat /\
+      lk_idle (p_lk s2) = 1 /\ lk_clock (p_lk s2) = 10001 /\ In (CWait false) (lk_log (p_lk s2)).
+Proof. exact pool_norecheck_variant_times_out. Qed.
+Print Assumptions C12_pool_norecheck_variant_times_out.
